@@ -79,6 +79,27 @@ func TWCCModelGen(r *core.Rand, o Opts) *TWCCModel {
 		}
 	}
 	if r.Chance(1, 4) {
+		// neighbouring deltas of different size class with the same value (a large delta inside the
+		// small range): equal numbers, different widths on the wire
+		di := 0
+		prevSym, prevIdx := uint8(0), -1
+		for _, sym := range m.Status {
+			if sym == 0 {
+				continue
+			}
+			if prevIdx >= 0 && sym != prevSym && r.Bool() {
+				v := m.Deltas[prevIdx]
+				if v < 0 || v > 255 {
+					v = int64(1 + r.Intn(255))
+					m.Deltas[prevIdx] = v
+				}
+				m.Deltas[di] = v
+			}
+			prevSym, prevIdx = sym, di
+			di++
+		}
+	}
+	if r.Chance(1, 4) {
 		// deltas that are not whole units: the documented quantisation drops the remainder
 		m.Rem = make([]int64, len(m.Deltas))
 		for i, u := range m.Deltas {
